@@ -295,3 +295,130 @@ def rule_desc_sem(ctx: RuleContext, p: Program, rid: str) -> None:
         problem = f'raises {ex}'
     ctx.check(problem is None, rid, 'models.internal.properties:cached_custom_property / custom_property', problem or 'getter once per instance; setter reached',
               f'cached_custom_property / custom_property: {problem}', cget.where)
+
+
+def rule_field_sem(ctx: RuleContext, p: Program, rid: str) -> None:
+    """optional_left_field / optional_right_field: _create_node and _remove_node against a mock store"""
+    from .tokenstore import TS
+    ctx.rule(rid, 'optional_left_field / optional_right_field._create_node and _remove_node, interpreted against a mock store in which a zero-width '
+                  'place-holder stands next to the pivot (the tags / links place-holder behind a transaction flag): with 0, 1 and 2 separator tokens, '
+                  'creation puts <separators> <node> directly behind the pivot (left field) or <node> <separators> directly in front of it (right '
+                  'field) -- the separators fresh copies, every other token where it was, the node reattached to the store -- and removal afterwards '
+                  'restores the store token for token')
+    ts = TS(p)
+    m = p.module('models.internal.fields')
+    problems: dict = {}
+    n = 0
+    for cname, side in (('optional_left_field', 'left'), ('optional_right_field', 'right')):
+        c = p.cls(cname, 'models.internal.fields')
+        create, remove = c.lookup('_create_node'), c.lookup('_remove_node')
+        if not isinstance(create, FuncInfo) or not isinstance(remove, FuncInfo):
+            raise AnalysisError(f'FIELD-SEM: {cname}._create_node / _remove_node not found')
+        for n_sep in (0, 1, 2):
+            protos = tuple(possem.Obj('Tok', {'raw_text': ' ', 'proto': True}, f'separator prototype {i}') for i in range(n_sep))
+            me = possem.Obj(cname, {'_separators': protos, 'separators': protos}, 'the field')
+            ctx_l, ctx_r = possem.Obj('Tok', {'raw_text': 'L'}, 'LEFT'), possem.Obj('Tok', {'raw_text': 'R'}, 'RIGHT')
+            pivot = possem.Obj('Tok', {'raw_text': '*'}, 'pivot')
+            ph = possem.Obj('Tok', {'raw_text': '', 'placeholder': True}, 'placeholder')
+            doc = [ctx_l, pivot, ph, ctx_r] if side == 'left' else [ctx_l, ph, pivot, ctx_r]
+            before = list(doc)
+            v1, v2 = possem.Obj('Tok', {'raw_text': 'v'}, 'node.first'), possem.Obj('Tok', {'raw_text': ''}, 'node.last')
+            node = possem.Obj('Node', {'first_token': v1, 'last_token': v2, 'tokens': [v1, v2], 'store': None}, 'the new node')
+            store = possem.Obj('Store', {}, 'store')
+
+            class Interp(possem.PosInterp):
+                tag = 'FIELD-SEM'
+
+                def expr(self, e: Any, env: dict) -> Any:         # type: ignore[override]
+                    if isinstance(e, ast.Call) and norm(e.func) == 'isinstance' and len(e.args) == 2 and norm(e.args[1]).rsplit('.', 1)[-1] == 'Placeholder':
+                        v = self.expr(e.args[0], env)
+                        return isinstance(v, possem.Obj) and bool(v.f.get('placeholder'))
+                    if isinstance(e, ast.Call) and isinstance(e.func, ast.Attribute) and not (isinstance(e.func.value, ast.Name) and e.func.value.id not in env):
+                        try:
+                            recv = self.expr(e.func.value, env)
+                        except AnalysisError:
+                            recv = None
+                        if recv is node and e.func.attr == 'detach':
+                            if any(any(x is y for y in doc) for x in node.f['tokens']):
+                                raise possem.Raised('ValueError: Cannot reuse node.')
+                            return list(node.f['tokens'])
+                        if recv is node and e.func.attr == 'reattach':
+                            node.f['store'] = self.expr(e.args[0], env)
+                            return node
+                        if recv is store:
+                            a = [self.expr(x, env) for x in e.args]
+
+                            def at(t: Any) -> int:
+                                for i, x in enumerate(doc):
+                                    if x is t:
+                                        return i
+                                raise possem.Raised('ValueError: token is not in the store')
+                            if e.func.attr in ('get_next', 'get_prev'):
+                                j = at(a[0]) + (1 if e.func.attr == 'get_next' else -1)
+                                return doc[j] if 0 <= j < len(doc) else None
+                            if e.func.attr in ('insert_after', 'insert_before'):
+                                i = 0 if a[0] is None else at(a[0]) + (1 if e.func.attr == 'insert_after' else 0)
+                                if a[0] is None and e.func.attr == 'insert_before':
+                                    i = len(doc)
+                                new = list(self.iter_of(a[1], e))
+                                if any(any(x is y for y in doc) for x in new):
+                                    raise possem.Raised('ValueError: token already in the store')
+                                doc[i:i] = new
+                                return None
+                            if e.func.attr == 'remove' and len(a) == 2:
+                                i, j = at(a[0]), at(a[1])
+                                if j < i:
+                                    raise possem.Raised('ValueError: reversed range')
+                                del doc[i:j + 1]
+                                return None
+                            if e.func.attr == 'splice' and len(a) == 3:
+                                i, j = at(a[1]), at(a[2])
+                                doc[i:j + 1] = list(self.iter_of(a[0], e))
+                                return None
+                            raise self.err(e, 'store call')
+                    return super().expr(e, env)
+
+                def truth(self, v: Any, node_: Any) -> bool:      # type: ignore[override]
+                    if isinstance(v, possem.Obj):
+                        return True
+                    return super().truth(v, node_)
+
+            n += 1
+            show = f'{cname}, {n_sep} separator token(s)'
+            try:
+                Interp(ts, [], module=m).call_function(create, [me, store, pivot, node], {})
+            except possem.Raised as ex:
+                problems.setdefault(cname, f'{show}: _create_node raises {ex}')
+                continue
+            k = 2 + n_sep
+            got = [x.label for x in doc]
+            ok = len(doc) == len(before) + k
+            if ok and side == 'left':
+                seg = doc[2:2 + k]
+                ok = doc[:2] == before[:2] and all(a is b for a, b in zip(doc[2 + k:], before[2:])) and seg[n_sep] is v1 and seg[n_sep + 1] is v2 \
+                    and all(x.f.get('proto') and not any(x is y for y in protos) for x in seg[:n_sep])
+            elif ok:
+                seg = doc[2:2 + k]
+                ok = all(a is b for a, b in zip(doc[:2], before[:2])) and all(a is b for a, b in zip(doc[2 + k:], before[2:])) and seg[0] is v1 and seg[1] is v2 \
+                    and all(x.f.get('proto') and not any(x is y for y in protos) for x in seg[2:])
+            if not ok:
+                want = (['LEFT', 'pivot'] + ['<copy of a separator>'] * n_sep + ['node.first', 'node.last', 'placeholder', 'RIGHT']) if side == 'left' else \
+                    (['LEFT', 'placeholder', 'node.first', 'node.last'] + ['<copy of a separator>'] * n_sep + ['pivot', 'RIGHT'])
+                problems.setdefault(cname, f'{show}: after _create_node the store reads {got}, expected {want} (separators as fresh copies): the node does not sit directly '
+                                           f'{"behind" if side == "left" else "in front of"} its pivot -- a zero-width token between them is the anchor of a sibling field')
+                continue
+            if node.f['store'] is not store:
+                problems.setdefault(cname, f'{show}: the new node is not reattached to the store')
+                continue
+            try:
+                Interp(ts, [], module=m).call_function(remove, [me, store, pivot, node], {})
+            except possem.Raised as ex:
+                problems.setdefault(cname, f'{show}: _remove_node raises {ex}')
+                continue
+            if len(doc) != len(before) or any(a is not b for a, b in zip(doc, before)):
+                problems.setdefault(cname, f'{show}: after _create_node and _remove_node the store reads {[x.label for x in doc]}, it was {[x.label for x in before]}')
+    for cname in ('optional_left_field', 'optional_right_field'):
+        c = p.cls(cname, 'models.internal.fields')
+        fn = c.lookup('_create_node')
+        ctx.check(cname not in problems, rid, f'models.internal.fields:{cname}._create_node / _remove_node', problems.get(cname) or 'node directly at its pivot; removal restores the store',
+                  f'{problems.get(cname, "")}', fn.where if isinstance(fn, FuncInfo) else '', note=f'{n} scenarios in all')
